@@ -66,6 +66,46 @@ def unimodular(rs, n, cplx=False):
     return P @ L @ U
 
 
+def structured(rs, n, mkind):
+    """Full-rank matrices with small-integer / Gaussian-integer entries and a
+    special structure (determinant a unit, so x is recovered exactly):
+    csym  complex symmetric (A == A.T) but NOT Hermitian;  cdiag complex diagonal;
+    cscal complex multiple of the identity;  rsym real symmetric (indefinite);
+    herm  Hermitian (indefinite);  tril / triu triangular (real or complex)."""
+    sgn = np.diag([rs.choice((1, -1)) for _ in range(n)]).astype(complex)
+    if mkind == "csym":
+        for _ in range(50):
+            U = unimodular(rs, n, True)
+            A = U.T @ sgn @ U
+            if n == 1:
+                A = np.array([[complex(rs.choice((1, -1, 2)), rs.choice((1, -1, 2)))]])
+            if not np.array_equal(A, A.conj().T):
+                return A
+        raise RuntimeError("no non-Hermitian complex-symmetric matrix generated")
+    if mkind == "cdiag":
+        return np.diag([complex(rs.choice((1, -1, 2, 0)), rs.choice((1, -1, 2))) for _ in range(n)])
+    if mkind == "cscal":
+        return complex(rs.choice((0, 1, -1, 2)), rs.choice((1, -1, 2))) * np.eye(n)
+    if mkind == "rsym":
+        U = unimodular(rs, n, False)
+        return U.T @ sgn.real @ U
+    if mkind == "herm":
+        U = unimodular(rs, n, True)
+        return U.conj().T @ sgn @ U
+    if mkind in ("tril", "triu", "ctril", "ctriu"):
+        cplx = mkind.startswith("c")
+        A = np.zeros((n, n), dtype=complex)
+        for i in range(n):
+            A[i, i] = rs.choice((1, -1)) * (1j if cplx and rs.random() < 0.5 else 1)
+            for j in range(i):
+                A[i, j] = rs.randint(-2, 2) + (1j * rs.randint(-1, 1) if cplx else 0)
+        return A if mkind.endswith("l") else A.T
+    raise ValueError(mkind)
+
+
+MKINDS = ("csym", "cdiag", "cscal", "rsym", "herm", "tril", "triu", "ctril", "ctriu")
+
+
 def build(family, p):
     import pylops
     import scipy.sparse as sps
@@ -249,6 +289,15 @@ def other_grid(tier, rs):
                         A = np.vstack([unimodular(rs, n, cplx), np.array([[rs.randint(-2, 2) for _ in range(n)] for _ in range(rs.randint(1, 3))])])
                         out.append(("MatrixMult", dict(A=[[str(complex(t)) for t in r] for r in A], cplx=cplx, sparse=None,
                                                        wrap=wrap, rect=True)))
+    # structured explicit operators: solvers may pick structure-specific drivers
+    for mkind in MKINDS:
+        for n in (1, 2, 3, 4, 5):
+            for sparse, wrap in ((None, False), (None, True), ("csc", False)):
+                for _ in range(1 if tier == "quick" else 3):
+                    A = structured(rs, n, mkind)
+                    cplx = bool(np.abs(A.imag).max() > 0) or mkind in ("csym", "cdiag", "cscal", "herm", "ctril", "ctriu")
+                    out.append(("MatrixMult", dict(A=[[str(complex(t)) for t in r] for r in A], cplx=cplx, sparse=sparse,
+                                                   wrap=wrap, rect=False, mkind=mkind)))
     return out
 
 
@@ -451,14 +500,14 @@ def main(tier):
             R.known_finding(k["id"], k["what"])
             continue
         p = c["params"]
-        gk = (c["family"], p.get("engine"), p.get("norm"), p.get("real"), p.get("type"), p.get("wavelet"), p.get("sparse"), kind)
+        gk = (c["family"], p.get("engine"), p.get("norm"), p.get("real"), p.get("type"), p.get("wavelet"), p.get("sparse"), p.get("mkind"), kind)
         groups.setdefault(gk, []).append((len(c.get("x", c.get("cols", []))), typ, gi, kind, c))
     for gk in sorted(groups, key=str)[:60]:
         lst = sorted(groups[gk], key=lambda t: t[:3])
         _, typ, gi, kind, c = lst[0]
         more = " [+%d more failing configurations of this kind]" % (len(lst) - 1) if len(lst) > 1 else ""
         reported.add(gk)
-        what = "%s for %s(%s)" % (WHAT[kind], c["family"], ", ".join("%s=%r" % kv for kv in c["params"].items() if kv[0] != "A"))
+        what = "%s for %s(%s)" % (WHAT[kind], c["family"], ", ".join("%s=%r" % kv for kv in c["params"].items() if kv[0] != "A" or len(kv[1]) <= 3))
         if kind == "gram":
             R.violation(what + more, dict(family=c["family"], params=c["params"], kind=kind))
             continue
@@ -485,7 +534,7 @@ def main(tier):
         if np.any(c["x"]) and y_nonzero:
             nontriv.add((c["cfg"], c["kind"], np.asarray(c["x"]).tobytes()))
         p = c["params"]
-        key = c["family"] + ("/" + p["engine"] + "/" + p["norm"] if "engine" in p else "") + "/" + c["kind"]
+        key = c["family"] + ("/" + p["engine"] + "/" + p["norm"] if "engine" in p else "") + ("/" + p["mkind"] if "mkind" in p else "") + "/" + c["kind"]
         dist[key] = dist.get(key, 0) + 1
     for g in grams:
         nontriv.add((g["cfg"], "gram"))
@@ -500,7 +549,7 @@ def main(tier):
              "shifts x axes x nfft in n+{0,1,2,5}; Op.H@(Op@x) for ortho and Op/(Op@x) for every norm; DCT types 1-4 all axis subsets; "
              "DWT/DWT2D/DWTND orthogonal wavelets, lengths multiple of 2^level (+ Gram matrix of columns for n<=16/32); Flip, Roll, Transpose, "
              "square Identity; MatrixMult unimodular integer / Gaussian-integer matrices dense/csc/csr, wrapped or not: inv(), '/', "
-             "div(densesolver=numpy), tall full-column-rank for the lstsq branch. non-trivial = distinct (configuration, kind, x) with x != 0 and result != 0",
+             "div(densesolver=numpy), tall full-column-rank for the lstsq branch; structured full-rank matrices (complex symmetric non-Hermitian, complex diagonal, complex scaled identity, real symmetric, Hermitian, real/complex triangular). non-trivial = distinct (configuration, kind, x) with x != 0 and result != 0",
         configurations=len(cfgs), distribution=dist, implementation_errors=len(errors), failing_configurations=nfail,
         modelled="FFT/FFT2D/FFTND (Ops/DFT.v, Ops/DFTEngines.v), Flip/Roll/Transpose/Identity as index maps",
         l1_only="DCT (scipy), DWT/DWT2D/DWTND (pywt), MatrixMult.inv and explicit '/' (LAPACK / SuperLU are oracles)",
